@@ -19,6 +19,7 @@ CFG = ('SPECIFICATION Spec\nCONSTANTS\n  MinCols = %d\n  MaxCols = %d\n  Kinds =
 KINDS = ('gaussian', 'gamma', 'beta', 'uniform', 'student', 'bimodal', 'constant', 'timestamp', 'integer')
 PATTERNS = ('independent', 'equi-positive', 'equi-negative', 'ar', 'near-singular')
 FORMS = ('default', 'class', 'name', 'instance', 'dict')
+MLE_FAMILIES = ('GammaUnivariate', 'BetaUnivariate', 'StudentTUnivariate', 'LogLaplace')
 
 
 def law(kind):
@@ -67,7 +68,7 @@ def true_cdf(kind, x):
     return law(kind).cdf(x)
 
 
-def config(form, layout, cols):
+def config(form, layout, cols, variant=0):
     import copulas.univariate as U
     fam = {'gaussian': U.GaussianUnivariate, 'gamma': U.GammaUnivariate, 'beta': U.BetaUnivariate, 'uniform': U.UniformUnivariate,
            'student': U.StudentTUnivariate, 'bimodal': U.GaussianKDE, 'constant': U.GaussianUnivariate, 'timestamp': U.GaussianUnivariate, 'integer': U.GammaUnivariate}
@@ -78,7 +79,15 @@ def config(form, layout, cols):
     if form == 'name':
         return {'distribution': 'copulas.univariate.gaussian_kde.GaussianKDE'}
     if form == 'instance':
+        # one instance serves as the template of every column; when the whole layout belongs to one closed-form family an instance of it is used
+        if variant % 2 and set(layout) <= {'gaussian', 'timestamp', 'constant'}:
+            return {'distribution': U.GaussianUnivariate()}
+        if variant % 2 and set(layout) <= {'uniform', 'constant'}:
+            return {'distribution': U.UniformUnivariate()}
         return {'distribution': U.GaussianKDE()}
+    if variant % 2:      # template instances as dict values, one instance shared by all the columns of the same family
+        inst = {}
+        return {'distribution': {c: inst.setdefault(fam[k], fam[k]()) for c, k in list(zip(cols, layout))[:-1]}}
     return {'distribution': {c: fam[k] for c, k in list(zip(cols, layout))[:-1]}}       # the last column is left to the default
 
 
@@ -92,12 +101,23 @@ def _run(job):
     rs = np.random.RandomState(seed)
     df, R = make_table(layout, case['pattern'], ntrain, rs)
     n = case['n'] if case['n'] < 1000 else nsample
-    rec = {'exact': [], 'bands': [], 'err': ''}
+    rec = {'exact': [], 'bands': [], 'err': '', 'mle': []}
+    stalled = set()
     st = np.random.get_state()
     try:
         np.random.seed(seed)
-        m = GaussianMultivariate(random_state=seed % 1000 + 1, **config(case['form'], layout, cols))
+        m = GaussianMultivariate(random_state=seed % 1000 + 1, **config(case['form'], layout, cols, variant=seed // 2))
         as_array = (seed % 5 == 0 and case['form'] != 'dict')       # every fifth request trains on a plain 2-D array: columns are 0..d-1
+        if seed % 3 == 1 and not as_array:
+            # a third of the requests reuse an instance that was already fitted to, and sampled from, a table with the opposite
+            # dependence and other marginals: the property speaks of the state after the (last) fit
+            old = df.iloc[::-1].reset_index(drop=True).copy()
+            for j, c in enumerate(cols):
+                if layout[j] != 'constant':
+                    v = np.sort(old[c].to_numpy(dtype=float))
+                    old[c] = (v if j % 2 else v[::-1]) * 0.5 + 3.0
+            m.fit(old)
+            m.sample(3)
         if as_array:
             m.fit(df.to_numpy(dtype=float).copy())
             cols = list(range(d))
@@ -133,12 +153,23 @@ def _run(job):
             if case['form'] in ('default', 'dict') or True:
                 g = np.sort(df[cols[j]].to_numpy())
                 Ff = np.asarray(m.univariates[j].cdf(g.copy()), dtype=float)
-                rec['bands'].append(('fitted-marginal-far-from-generating-marginal', kind, float(np.max(np.abs(Ff - true_cdf(kind, g)))), 0.0,
-                                     math.sqrt(math.log(2.0 / ALPHA) / (2.0 * ntrain)) + 0.06))
+                dist = float(np.max(np.abs(Ff - true_cdf(kind, g))))
+                band = math.sqrt(math.log(2.0 / ALPHA) / (2.0 * ntrain)) + 0.06
+                u = m.univariates[j]
+                if type(getattr(u, '_instance', None) or u).__name__ in MLE_FAMILIES:
+                    # C04 grants the families delegated to scipy's generic optimiser a share of data sets on which the search
+                    # stalls: their recovery is judged as a share over the run, and the dependent clauses of a stalled column are skipped
+                    rec['mle'].append((kind, bool(dist <= band)))
+                    if dist > band:
+                        stalled.add(j)
+                else:
+                    rec['bands'].append(('fitted-marginal-far-from-generating-marginal', kind, dist, 0.0, band))
         tb = math.sqrt(2.0 * math.log(2.0 / ALPHA) / (n // 2))
         for i in range(d):
             for j in range(i + 1, d):
                 if layout[i] == 'constant' or layout[j] == 'constant':
+                    continue
+                if i in stalled or j in stalled:
                     continue
                 rho = C[i, j] / math.sqrt(C[i, i] * C[j, j])
                 t = float(stats.kendalltau(s[cols[i]], s[cols[j]])[0])
@@ -165,7 +196,10 @@ def run(ctx):
                 'TLC (Acceptance) judges: each sampled column vs its fitted marginal (DKW), sample Kendall tau of each pair vs (2/pi) asin(rho_fitted) '
                 '(Hoeffding), fitted marginal vs generating marginal, fitted vs generating correlation.  non-trivial = every request; distinct by content')\
         % (3 if quick else 6, nsample, ntrain)
-    ctx.assumptions = ['bands at level 1e-12 per comparison; recovery bands include the smoothing bias of KDE marginals (0.06) and 0.1 for correlations']
+    ctx.assumptions = ['bands at level 1e-12 per comparison; recovery bands include the smoothing bias of KDE marginals (0.06) and 0.1 for correlations',
+                       'columns whose fitted marginal is a family delegated to scipy\'s generic MLE (Gamma, Beta, StudentT, LogLaplace) are judged as in C04: '
+                       'the generating marginal must be recovered for >= 60 % of them over the run (>= 20 such columns), and the correlation clauses of a column '
+                       'whose search stalled are skipped']
     def cfg(mincols, maxcols, kinds, patterns, forms, rows):
         q = lambda xs: ', '.join('"%s"' % x for x in xs)
         return CFG % (mincols, maxcols, q(kinds), q(patterns), q(forms), ', '.join(str(r) for r in rows))
@@ -201,11 +235,16 @@ def run(ctx):
         for what, detail, obs, exp, band in r_['bands']:
             recs.append(A.band(key + '|' + what + '|' + detail, obs, exp, band))
             meta.append((c, what, detail, obs, exp, band))
+    mle = [x for r_ in res for x in r_.get('mle', [])]
+    ctx.extra['scipy_mle_columns_recovered'] = '%d/%d' % (sum(ok for _, ok in mle), len(mle))
+    if len(mle) >= 20:
+        recs.append(A.count('columns fitted by scipy\'s generic MLE: generating marginal recovered', sum(ok for _, ok in mle), len(mle), 60))
+        meta.append(({'form': 'any', 'pattern': 'any'}, 'too-few-scipy-mle-marginals-recovered', 'all', sum(ok for _, ok in mle) / len(mle), 0.6, 0.0))
     for i in A.evaluate(ctx, 'Acceptance.gaussian-copula', recs):
         c, what, detail, obs, exp, band = meta[i]
         ctx.violation('C01|%s|%s|%s|%s' % (c['form'], what, detail, c['pattern']),
                       '%s (%s): observed %.4f expected %.4f band %.4f; request %s' % (what, detail, obs, exp, band, json.dumps(c)), c)
-    ctx.extra['max_statistic_over_band'] = max([abs(o - e) / b for (_, _, _, o, e, b) in meta] or [0])
+    ctx.extra['max_statistic_over_band'] = max([abs(o - e) / b for (_, _, _, o, e, b) in meta if b] or [0])
     ctx.extra['requests'] = len(clist)
     ctx.extra['infinite_values_in_samples'] = sum(r_.get('infinite', 0) for r_ in res)
     ctx.sample(clist[len(clist) // 2])
